@@ -3,6 +3,7 @@ let () =
   let rec opts = function
     | "--thr" :: v :: r -> D_static.thr := int_of_string v; opts r
     | "--max-n" :: v :: r -> D_spec.max_n := int_of_string v; opts r
+    | "--bound" :: r -> D_spec.with_bound := true; opts r
     | _ :: r -> opts r
     | [] -> ()
   in
